@@ -51,6 +51,9 @@ void *bsearch(const void *key, const void *base,
 	char *left = (char *)base,
 		*right = (char *)base + size * nmemb,
 		*mid;
+	if (nmemb == 0) {
+		return NULL; /* nothing to compare with: base[0] does not exist */
+	}
 	while (left + size < right) {
 		mid = left + ((right - left) / (size << 1) * size);
 		if (compar(key, mid) < 0) {
@@ -59,7 +62,7 @@ void *bsearch(const void *key, const void *base,
 			left = mid;
 		}
 	}
-	if (compar(left, key) == 0) {
+	if (compar(key, left) == 0) {
 		return left;
 	} else {
 		return NULL;
